@@ -328,6 +328,9 @@ let step_preds : (string * (vconfig -> fstep -> bool)) list = [
   ("c05_rto_single_ok", c05_rto_single_ok);
   ("c05_monitor_ok", c05_monitor_ok);
   ("c05_rto_exit_ok", c05_rto_exit_ok);
+  ("c14_datagram_ok", c14_datagram_ok);
+  ("c14_segments_ok", c14_segments_ok);
+  ("c08_deadline_ok", c08_deadline_ok);
   ("c06_no_resend_acked", c06_no_resend_acked);
   ("c05_zero_window_strict", c05_zero_window_strict);
   ("c05_d16_class_neg", (fun c st -> not (c05_d16_class c st)));
